@@ -1,5 +1,5 @@
 (* C04 — caches are transparent for every history of calls, failures and rebuilds. *)
-From Connectome Require Import Values Attrs VM Edges EdgesGen Store Evaluator L2 HashSound SpecEq EqFacts C01Inst C04Main Total RaiseDir C01Raise Examples.
+From Connectome Require Import Values Attrs VM Edges EdgesGen Store Evaluator L2 HashSound SpecEq EqFacts C01Inst C04Main Total RaiseDir C01Raise FailClean Examples.
 Local Open Scope list_scope.
 
 (* Every history of calls and clears, on any sequence of graphs sharing the caches (rebuilds, pipeline variants
@@ -28,6 +28,27 @@ Theorem C04_failures_are_user_exceptions :
     (exists s1, out = Running cstore s1 /\ k' < k) \/ out = Finished cstore (SVal v) s' \/ user_raise raises cstore out.
 Proof. exact cached_only_user_exceptions. Qed.
 Print Assumptions C04_failures_are_user_exceptions.
+
+(* "A failed computation leaves nothing behind that a later call could read."  Whatever the user functions do and
+   however far a call got - finished, failed, or still running after k steps - the shared store meets the invariant
+   of C04.  (The store carries a ghost log of its writes: the failure-free run ends with all logged writes Good, logs
+   only grow, and the store of a failing run is one the failure-free run passes through.) *)
+Theorem C04_store_good_at_every_step :
+  forall apply (interfere : cstore -> cstore), (forall s, CInvS apply s -> CInvS apply (interfere s)) ->
+  forall g ins o v, call_ok apply {| hc_g := g; hc_ins := ins; hc_o := o; hc_raises := quiet |} v ->
+  forall raises σ k, CInvS apply σ ->
+  CInvS apply (sto cstore (ostate cstore (call (shape g) (gens_of g) apply raises cstore cget cset interfere ins o σ k))).
+Proof. exact store_good_at_every_step. Qed.
+Print Assumptions C04_store_good_at_every_step.
+
+(* The property in full: every history of calls - each with ANY behaviour of the user functions - and clears, on any
+   sequence of graphs sharing the caches: every call ends with the cache-free value or with the exception of a user
+   function that raised, and the history goes on from whatever store that call left behind. *)
+Theorem C04_history_with_failures :
+  forall apply (interfere : cstore -> cstore), (forall s, CInvS apply s -> CInvS apply (interfere s)) ->
+  forall ops σ, CInvS apply σ -> Forall (opf_ok apply) ops -> histf apply interfere σ ops.
+Proof. exact history_with_failures. Qed.
+Print Assumptions C04_history_with_failures.
 
 (* the empty store of any cache configuration satisfies the invariant, and clear keeps it *)
 Theorem C04_fresh_store_ok :
